@@ -675,9 +675,11 @@ func c07Payload(c *Ctx) {
 	want, _, _ := c07PkgRelation(w, "signer")
 	signerPkg2 := w.Pkg("signer")
 	nGen := 0
-	for _, gc := range c07GeneratorCalls(w) {
-		fn := gc.In
-		if signerPkg2 == nil || fnPkg(fn) != signerPkg2.Pkg {
+	// (an invocation whose algorithm is a parameter / captured variable of the function it stands in — the evaluation moved
+	// into a helper or closure that is handed the algorithm — is decided per call site, in the caller: c07GenSite)
+	for _, gc := range c07GeneratorSites(w) {
+		fn := gc.Root
+		if signerPkg2 == nil || fnPkg(gc.In) != signerPkg2.Pkg || fnPkg(fn) != signerPkg2.Pkg {
 			continue
 		}
 		nGen++
@@ -727,7 +729,7 @@ func c07Payload(c *Ctx) {
 		c.Check(okL, "payload/blob-digest-algorithm/lookup", "must-check: the descriptor generator is invoked only with table[keySpec.SignatureAlgorithm().Hash()] of the key spec "+fnName(fn)+" was given, found in the table (a miss fails closed)", siteL, why)
 		// (exits that return, over the failing branch of its own nil test, the error just tested are not success exits: c07LiveExits)
 		c.requireOnExits("payload/blob-digest-algorithm", fn, c07LiveExits(s.Exits), []Need{
-			{Name: "generator", What: "descriptor generator applied to that digest algorithm", Subs: []string{"EQ(" + desc(gc.Call) + "#err,nil)"}},
+			{Name: "generator", What: "descriptor generator applied to that digest algorithm", Subs: []string{"EQ(" + gc.F.lift(desc(gc.Call)) + "#err,nil)"}},
 		})
 	}
 	if nGen == 0 {
@@ -758,11 +760,13 @@ func c07BlobDescriptor(c *Ctx) {
 	w := c.W
 	// every invocation of a generator passes R[<hash of the signature algorithm / key spec>], R the relation of the tables
 	// (c07GeneratorArgument: decided per origin of the argument; the table may be a map or a function)
-	n := 0
+	// An invocation that stands in a helper / closure which is handed the algorithm is decided at every call site of that
+	// helper, in the caller's terms (c07GeneratorSites; only for a closed list of call sites).
+	seenCall := map[*ssa.Call]bool{}
 	want, _, _ := c07PkgRelation(w, "signer")
-	for _, gc := range c07GeneratorCalls(w) {
-		fn, call := gc.In, gc.Call
-		n++
+	for _, gc := range c07GeneratorSites(w) {
+		fn, call := gc.Root, gc.Call
+		seenCall[call] = true
 		c.Evals++
 		c.SeenFn(fn.String())
 		apps, why := c07GeneratorArgument(w, gc, want)
@@ -774,6 +778,7 @@ func c07BlobDescriptor(c *Ctx) {
 		c.Check(why == "", fmt.Sprintf("blob-descriptor/generator-call/%s", fnName(fn)), "who-may-call: a blob descriptor generator is invoked only with algorithms[hash bound to the signing key / signature algorithm] (signer and verifier derive the digest algorithm the same way)", w.InstrPos(call),
 			"the generator is invoked with "+desc(call.Call.Args[0])+"; "+why)
 	}
+	n := len(seenCall)
 	if n < 2 {
 		c.Unk("blob-descriptor/generator-call#count", "vacuity guard: the signer and the verifier each invoke the generator", "-", fmt.Sprintf("%d invocations found", n))
 	}
